@@ -158,6 +158,10 @@ RACES = [
     ("pasv-then-user", 1, 1, [(0, "PASV!"), (0, "USER anonymous")], 0),
     ("pasv-during-server-close", 1, 2, [(0, "PASV!"), (0, "@close-server")], 0),
     ("three-sessions", 3, 2, [(0, "PASV!"), (1, "PASV!"), (2, "PASV!"), (1, "@drop")], 0),
+    # a client that does not wait for the reply (pipelining is just another network schedule)
+    ("pasv-pasv-pipelined", 1, 2, [(0, "PASV!"), (0, "PASV")], 0),
+    ("pasv-epsv-pipelined", 1, 3, [(0, "PASV!"), (0, "EPSV!"), (0, "PASV")], 0),
+    ("epsv-epsv-pipelined-quit", 1, 2, [(0, "EPSV!"), (0, "EPSV!"), (0, "QUIT")], 0),
 ]
 
 
@@ -226,7 +230,7 @@ def build_items(tier):
         for combo in itertools.product(outcomes, repeat=2 * psize):
             plan = {str(p): list(combo[2 * k:2 * k + 2]) for k, p in enumerate(ports)}
             for name, n, events in fault_scripts:
-                b = 1 if name.endswith("race") and (tier != "quick" or psize == 1) else 0
+                b = 1 if name.endswith("race") else 0
                 items.append(("plan", {"name": name, "pool": ports, "n": n, "events": events, "plan": plan},
                               b, kinds_q, 3000))
     return items
